@@ -70,7 +70,7 @@ def gen_model(rng):
     used = set()
     for i in range(n_act + rng.choice((0, 0, 1))):
         alias = i >= n_act
-        kind = rng.choice(("plain", "plain", "main", "main", "main-disabled", "only-main", "only-launcher"))
+        kind = rng.choice(("plain", "plain", "main", "main", "main-disabled", "only-main", "only-launcher", "split"))
         # an activity that takes part in the MAIN/LAUNCHER decision has a name of its own (two activities sharing a
         # name and each contributing half of the pair would be merged by name)
         name = rng.choice(CLASS_NAMES)
@@ -83,6 +83,9 @@ def gen_model(rng):
         elif kind == "only-main":
             filters.append(([MAIN], rng.choice(([], ["android.intent.category.DEFAULT"]))))
         elif kind == "only-launcher":
+            filters.append((["android.intent.action.VIEW"], [LAUNCHER]))
+        elif kind == "split":       # MAIN and LAUNCHER in different filters of one component
+            filters.append(([MAIN], rng.choice(([], ["android.intent.category.DEFAULT"]))))
             filters.append((["android.intent.action.VIEW"], [LAUNCHER]))
         if rng.random() < 0.3:
             filters.append((["android.intent.action.SEND"], ["android.intent.category.DEFAULT"]))
@@ -190,8 +193,13 @@ def oracle(m):
          "svc": sorted(complete(pkg, n) for n in m["services"]), "rcv": sorted(complete(pkg, n) for n in m["receivers"]),
          "prv": sorted(complete(pkg, n) for n in m["providers"]),
          "lib": sorted(m["libraries"]), "feat": sorted(f for f in m["features"] if f is not None)}
-    mains = sorted(set(complete(pkg, a["name"]) for a in m["activities"] if a["enabled"] is not False and
-                       any(MAIN in ac and LAUNCHER in ca for ac, ca in a["filters"])))
+    # "main activity" in androguard's documented sense (the interpretation this property takes): a NAME under which an enabled
+    # activity / alias declares the action MAIN and an enabled activity / alias declares the category LAUNCHER (Android's launcher
+    # wants both in one filter; the notions differ only when they sit in different filters)
+    live = [a for a in m["activities"] if a["enabled"] is not False]
+    has_main = set(a["name"] for a in live if any(MAIN in ac for ac, _ in a["filters"]))
+    has_launcher = set(a["name"] for a in live if any(LAUNCHER in ca for _, ca in a["filters"]))
+    mains = sorted(set(complete(pkg, n) for n in has_main & has_launcher))
     o["mains"] = mains
     sdk = m["uses_sdk"] or {}
     o["min"], o["target"], o["max"] = (None if k not in sdk else str(sdk[k]) for k in ("min", "target", "max"))
@@ -531,7 +539,10 @@ def run(ck: Check):
                     "model only")
     ck.assumptions.append("results that androguard produces by iterating a Python set of lxml elements are compared as sorted lists; "
                           "lxml findall/get and the zip reader (apkInspector) are modelled, not verified")
-    ck.assumptions.append("interpretation: 'main activity' = an enabled activity or alias with a filter holding both MAIN and LAUNCHER; "
+    ck.assumptions.append("interpretation: 'main activity' is androguard's documented notion: a name under which an enabled activity or alias declares the "
+                          "action MAIN and an enabled activity or alias declares the category LAUNCHER (Android's launcher asks for both in one "
+                          "filter; the notions differ only for MAIN and LAUNCHER in different filters, which the generator produces and the oracle "
+                          "judges by the by-name notion; Lean: main_activities_of_model, main_name_vs_launcher_rule); "
                           "with several, any of them (androguard sorts); <uses-permission-sdk-23> is not a uses-permission")
     ck.notes.append("model describes the tree with fixes/C31-no-package-completion.diff (and the C26 fixes) applied")
 
